@@ -5,7 +5,32 @@ from . import core
 SIGS = [10, 12, 14, 15]
 
 
+def gen_unregrace(rng):
+    """several threads remove the SAME registration concurrently (plus a writer and deliveries)"""
+    lines = []
+    sg = rng.choice(SIGS)
+    tags = [100, 101, 102][:rng.randint(1, 3)]
+    for tg in tags:
+        lines.append("setup reg %d %d" % (sg, tg))
+    tid = 0
+    victim = rng.choice(tags)
+    for _ in range(rng.randint(2, 3)):
+        lines.append("t%d unreg @%d" % (tid, victim))
+        if rng.random() < 0.3:
+            lines.append("t%d unreg @%d" % (tid, rng.choice(tags)))
+        tid += 1
+    if rng.random() < 0.7:
+        lines.append("t%d reg %d %d" % (tid, sg, 110)); lines.append("t%d unreg @110" % tid); tid += 1
+    if rng.random() < 0.6:
+        lines.append("t%d deliver %d" % (tid, sg)); tid += 1
+    lines.append("seed %d" % rng.randint(1, 2**31))
+    lines.append("maxsteps 4000")
+    return lines
+
+
 def gen_scenario(rng, profile="mixed"):
+    if profile == "unregrace":
+        return gen_unregrace(rng)
     lines = []
     sigs = rng.sample(SIGS, rng.randint(1, 3))
     tag = 100
@@ -156,7 +181,9 @@ class Spec:
 
 def monitors(scenario, trace):
     """returns dict property -> list of problem strings, evaluated on one trace"""
-    probs = {"C01": [], "C02": [], "C03": [], "C04": [], "C18": []}
+    probs = {"C01": [], "C02": [], "C03": [], "C04": [], "C05": [], "C18": []}
+    true_count = {}               # tag -> how many unregister calls answered true
+    unreg = {}                    # tid -> dict(tag, removed_by_me, absent_seen)
     ev = parse(trace)
     spec = Spec(scenario)
     cur_call = {}                 # tid -> call text
@@ -167,6 +194,9 @@ def monitors(scenario, trace):
     for (i, tid, inh, body) in ev:
         if body.startswith("call "):
             cur_call[tid] = body[5:]
+            if body.startswith("call unreg @"):
+                tg = int(body.split("@")[1])
+                unreg[tid] = {"tag": tg, "removed": False, "absent": not any(tg in v for v in spec.acts.values())}
             if body.startswith("call deliver "):
                 sg = int(body.split()[2])
                 deliv[tid] = {"sig": sg, "runs": [], "prevs": [], "at_load": None, "cands": [spec.tags(sg)], "steps": 0, "lib": False, "bad": []}
@@ -193,7 +223,12 @@ def monitors(scenario, trace):
             probs["C03"].append("step %d: the delivery on t%d performed %s heap allocation/release operation(s) inside the signal handler" % (i, tid, body.split()[1]))
         if body.startswith("swap data.data") and not inh:
             call = cur_call.get(tid, "")
+            if tid in unreg and call.startswith("unreg @") and any(unreg[tid]["tag"] in v for v in spec.acts.values()):
+                unreg[tid]["removed"] = True
             spec.apply(call)
+            for u in unreg.values():
+                if not any(u["tag"] in v for v in spec.acts.values()):
+                    u["absent"] = True
             for d in deliv.values():
                 d["cands"].append(spec.tags(d["sig"]))
         if body.startswith("drop-action"):
@@ -210,6 +245,16 @@ def monitors(scenario, trace):
                         probs["C01"].append("step %d: action %d released by t%d while the delivery on t%d still has a snapshot containing it pinned" % (i, tg, tid, t2))
         if body.startswith("ret "):
             call = cur_call.get(tid, "")
+            if call.startswith("unreg @") and tid in unreg:
+                u = unreg.pop(tid)
+                if body == "ret bool true":
+                    true_count[u["tag"]] = true_count.get(u["tag"], 0) + 1
+                    if true_count[u["tag"]] > 1:
+                        probs["C05"].append("step %d: unregister of registration %d answered true %d times (t%d is told it removed an action another call had already removed)" % (i, u["tag"], true_count[u["tag"]], tid))
+                    elif not u["removed"]:
+                        probs["C05"].append("step %d: unregister of registration %d on t%d answered true without having removed it" % (i, u["tag"], tid))
+                elif body == "ret bool false" and not u["absent"]:
+                    probs["C05"].append("step %d: unregister of registration %d on t%d answered false although the action was registered during the whole call" % (i, u["tag"], tid))
             if call.startswith("unreg @") and body == "ret bool true":
                 tg = int(call.split("@")[1])
                 removed_returned.add(tg)
